@@ -14,6 +14,7 @@ use crate::mcp::model::actor_model::{McpManagerRaftReq, McpManagerReq, McpManage
 use crate::mcp::model::mcp::McpServerDto;
 use crate::raft::store::{ClientRequest, ClientResponse};
 use crate::sequence::{SequenceRequest, SequenceResult};
+use crate::{user_namespace_privilege, user_no_namespace_permission};
 use actix_multipart::form::tempfile::TempFile;
 use actix_multipart::form::text::Text;
 use actix_multipart::form::MultipartForm;
@@ -24,9 +25,14 @@ use std::sync::Arc;
 use zip::write::FileOptions;
 use zip::ZipWriter;
 
+/// 无命名空间权限时的响应，供返回anyhow::Result<HttpResponse>的do_*函数使用
+fn no_namespace_permission(namespace: &Arc<String>) -> HttpResponse {
+    user_no_namespace_permission!(namespace)
+}
+
 /// 查询McpServer列表
 pub async fn query_mcp_server_list(
-    _req: HttpRequest,
+    req: HttpRequest,
     request: web::Query<McpServerQueryRequest>,
     appdata: web::Data<Arc<AppShareData>>,
 ) -> impl Responder {
@@ -36,6 +42,10 @@ pub async fn query_mcp_server_list(
     }
     // 转换查询参数
     let query_param = request.to_mcp_query_param();
+    let namespace_privilege = user_namespace_privilege!(req);
+    if !namespace_privilege.check_option_value_permission(&query_param.namespace_id, true) {
+        user_no_namespace_permission!(&query_param.namespace_id);
+    }
     // 发送查询请求到MCP Manager
     let cmd = McpManagerReq::QueryServer(query_param);
     match appdata.mcp_manager.send(cmd).await {
@@ -55,7 +65,7 @@ pub async fn query_mcp_server_list(
 
 /// 获取单个McpServer
 pub async fn get_mcp_server(
-    _req: HttpRequest,
+    req: HttpRequest,
     request: web::Query<McpServerParams>,
     appdata: web::Data<Arc<AppShareData>>,
 ) -> impl Responder {
@@ -71,6 +81,10 @@ pub async fn get_mcp_server(
     match appdata.mcp_manager.send(cmd).await {
         Ok(res) => match res {
             Ok(McpManagerResult::ServerInfo(Some(server))) => {
+                let namespace_privilege = user_namespace_privilege!(req);
+                if !namespace_privilege.check_permission(&server.namespace) {
+                    user_no_namespace_permission!(&server.namespace);
+                }
                 log::debug!("Successfully retrieved McpServer with ID: {}", server_id);
                 let dto = McpServerDto::new_from(&server);
                 HttpResponse::Ok().json(ApiResult::success(Some(dto)))
@@ -107,6 +121,12 @@ async fn do_add_mcp_server(
 ) -> anyhow::Result<HttpResponse> {
     // 验证参数
     param.validate()?;
+
+    let namespace_privilege = user_namespace_privilege!(req);
+    let namespace = Arc::new(param.namespace.clone().unwrap_or_default());
+    if !namespace_privilege.check_permission(&namespace) {
+        return Ok(no_namespace_permission(&namespace));
+    }
 
     if let Some(server_key) = param.unique_key.as_ref() {
         if !server_key.is_empty() {
@@ -218,8 +238,13 @@ async fn do_update_mcp_server(
     let check_cmd = McpManagerReq::GetServer(server_id);
     let check_result = appdata.mcp_manager.send(check_cmd).await??;
 
+    let namespace_privilege = user_namespace_privilege!(req);
     match check_result {
-        McpManagerResult::ServerInfo(Some(_)) => {}
+        McpManagerResult::ServerInfo(Some(server)) => {
+            if !namespace_privilege.check_permission(&server.namespace) {
+                return Ok(no_namespace_permission(&server.namespace));
+            }
+        }
         _ => {
             return Err(anyhow::anyhow!("McpServer not found: {}", server_id));
         }
@@ -227,6 +252,12 @@ async fn do_update_mcp_server(
 
     // 转换为McpServerParam，支持部分字段更新
     let server_param = param.to_mcp_server_param(op_user.clone());
+    // 更新可以把McpServer移到另一个命名空间，目标命名空间同样需要权限
+    if let Some(namespace) = server_param.namespace.as_ref() {
+        if !namespace_privilege.check_permission(namespace) {
+            return Ok(no_namespace_permission(namespace));
+        }
+    }
 
     // 构建McpManagerRaftReq::UpdateServer请求
     let raft_req = McpManagerRaftReq::UpdateServer(server_param);
@@ -258,7 +289,7 @@ pub async fn remove_mcp_server(
 }
 
 async fn do_remove_mcp_server(
-    _req: HttpRequest,
+    req: HttpRequest,
     appdata: web::Data<Arc<AppShareData>>,
     param: McpServerParams,
 ) -> anyhow::Result<HttpResponse> {
@@ -272,7 +303,12 @@ async fn do_remove_mcp_server(
     let check_result = appdata.mcp_manager.send(cmd).await??;
 
     match check_result {
-        McpManagerResult::ServerInfo(Some(_)) => {}
+        McpManagerResult::ServerInfo(Some(server)) => {
+            let namespace_privilege = user_namespace_privilege!(req);
+            if !namespace_privilege.check_permission(&server.namespace) {
+                return Ok(no_namespace_permission(&server.namespace));
+            }
+        }
         _ => {
             return Err(anyhow::anyhow!("McpServer not found: {}", server_id));
         }
@@ -298,7 +334,7 @@ async fn do_remove_mcp_server(
 
 /// 查询McpServer历史版本
 pub async fn query_mcp_server_history(
-    _req: HttpRequest,
+    req: HttpRequest,
     request: web::Query<McpServerHistoryQueryRequest>,
     appdata: web::Data<Arc<AppShareData>>,
 ) -> impl Responder {
@@ -314,7 +350,12 @@ pub async fn query_mcp_server_history(
     let check_cmd = McpManagerReq::GetServer(server_id);
     match appdata.mcp_manager.send(check_cmd).await {
         Ok(res) => match res {
-            Ok(McpManagerResult::ServerInfo(Some(_))) => {}
+            Ok(McpManagerResult::ServerInfo(Some(server))) => {
+                let namespace_privilege = user_namespace_privilege!(req);
+                if !namespace_privilege.check_permission(&server.namespace) {
+                    user_no_namespace_permission!(&server.namespace);
+                }
+            }
             _ => {
                 return handle_not_found_error("McpServer", &server_id.to_string());
             }
@@ -372,7 +413,7 @@ pub async fn publish_current_mcp_server(
 }
 
 async fn do_publish_current_mcp_server(
-    _req: HttpRequest,
+    req: HttpRequest,
     appdata: web::Data<Arc<AppShareData>>,
     param: McpServerParams,
 ) -> anyhow::Result<HttpResponse> {
@@ -386,7 +427,12 @@ async fn do_publish_current_mcp_server(
     let check_result = appdata.mcp_manager.send(check_cmd).await??;
 
     match check_result {
-        McpManagerResult::ServerInfo(Some(_)) => {}
+        McpManagerResult::ServerInfo(Some(server)) => {
+            let namespace_privilege = user_namespace_privilege!(req);
+            if !namespace_privilege.check_permission(&server.namespace) {
+                return Ok(no_namespace_permission(&server.namespace));
+            }
+        }
         _ => {
             return Err(anyhow::anyhow!("McpServer not found: {}", server_id));
         }
@@ -432,7 +478,7 @@ pub async fn publish_history_mcp_server(
 }
 
 async fn do_publish_history_mcp_server(
-    _req: HttpRequest,
+    req: HttpRequest,
     appdata: web::Data<Arc<AppShareData>>,
     param: McpServerHistoryPublishParams,
 ) -> anyhow::Result<HttpResponse> {
@@ -445,7 +491,12 @@ async fn do_publish_history_mcp_server(
     // 首先检查McpServer是否存在
     let check_cmd = McpManagerReq::GetServer(server_id);
     match appdata.mcp_manager.send(check_cmd).await?? {
-        McpManagerResult::ServerInfo(Some(_)) => {}
+        McpManagerResult::ServerInfo(Some(server)) => {
+            let namespace_privilege = user_namespace_privilege!(req);
+            if !namespace_privilege.check_permission(&server.namespace) {
+                return Ok(no_namespace_permission(&server.namespace));
+            }
+        }
         _ => {
             return Err(anyhow::anyhow!("McpServer not found: {}", server_id));
         }
@@ -470,7 +521,7 @@ async fn do_publish_history_mcp_server(
 
 /// 批量导出McpServer
 pub async fn download_mcp_servers(
-    _req: HttpRequest,
+    req: HttpRequest,
     request: web::Query<McpServerQueryRequest>,
     appdata: web::Data<Arc<AppShareData>>,
 ) -> impl Responder {
@@ -483,6 +534,10 @@ pub async fn download_mcp_servers(
     let mut query_param = request.to_mcp_query_param();
     query_param.limit = 100_000;
     query_param.offset = 0;
+    let namespace_privilege = user_namespace_privilege!(req);
+    if !namespace_privilege.check_option_value_permission(&query_param.namespace_id, true) {
+        user_no_namespace_permission!(&query_param.namespace_id);
+    }
 
     // 发送查询请求到MCP Manager
     let cmd = McpManagerReq::QueryServer(query_param);
